@@ -55,11 +55,19 @@ func funcArrayLen(ctx *Context, this *VMValue, params []*VMValue) *VMValue {
 	return NewIntVal(IntType(len(arr.List)))
 }
 
+// ctxRandIntn 使用当前 VM 的随机源(若已设置种子)，否则使用全局随机源
+func ctxRandIntn(ctx *Context, n int) int {
+	if ctx != nil && ctx.RandSrc != nil {
+		return rand.New(ctx.RandSrc).Intn(n)
+	}
+	return rand.Intn(n)
+}
+
 func funcArrayShuttle(ctx *Context, this *VMValue, params []*VMValue) *VMValue {
 	arr, _ := this.ReadArray()
 	lst := arr.List
 	for i := len(lst) - 1; i > 0; i-- { // Fisher–Yates shuffle
-		j := rand.Intn(i + 1)
+		j := ctxRandIntn(ctx, i+1)
 		lst[i], lst[j] = lst[j], lst[i]
 	}
 	return this
@@ -67,7 +75,7 @@ func funcArrayShuttle(ctx *Context, this *VMValue, params []*VMValue) *VMValue {
 
 func funcArrayRand(ctx *Context, this *VMValue, params []*VMValue) *VMValue {
 	arr, _ := this.ReadArray()
-	return arr.List[rand.Intn(len(arr.List))]
+	return arr.List[ctxRandIntn(ctx, len(arr.List))]
 }
 
 func funcArrayRandSize(ctx *Context, this *VMValue, params []*VMValue) *VMValue {
